@@ -19,6 +19,9 @@ from mc.flo import runner
 def family():
     from mc.flo import families as F
     yield from F.fam_plain_aux(quick=(core.TIER == "quick"))
+    for label, prog, meta in F.fam_cond_two_plain():
+        if core.TIER != "quick" or label.split("/")[1] in ("repeat1-never", "repeat1-repeat2", "now-never", "repeat2-repeat1"):
+            yield label, prog, meta
 
 
 def on_prog(p, idx, label, prog, meta):
